@@ -25,3 +25,11 @@ Fixpoint mismatches_from {A} (ok : A -> bool) (i : nat) (l : list A) : list nat 
   | x :: r => if ok x then mismatches_from ok (S i) r else i :: mismatches_from ok (S i) r
   end.
 Definition mismatches_template := mismatches_from ok_template 0.
+
+Definition ok_strict_template (c : nat * env * list gtok) : bool :=
+  let '(i, e, obs) := c in
+  match nth_error strict_wrappers_whole i with
+  | Some p => toks_eqb (render (snd p) e) obs
+  | None => false
+  end.
+Definition mismatches_strict_template := mismatches_from ok_strict_template 0.
